@@ -10,6 +10,7 @@ import Proofs.WrapperRefines
 import Proofs.CtrRefines
 import Proofs.TwlRefines
 import Proofs.CbcRefines
+import Proofs.SubShared
 namespace Pyctr.C09
 open Pyctr
 universe u
@@ -132,5 +133,17 @@ theorem C09_stack_merged (E : Bytes → Bytes) :
 example : ((Sub.ops PyFile.ops).run ⟨⟨[0,1,2,3,4,5,6,7,8,9], 0⟩, 2, 4, 0⟩
       [.read 2, .seek (-1) 2, .read (-5), .write [0xaa, 0xbb]]).1
     = [.bytes [2,3], .nat 3, .bytes [5], .nat 0] := by decide
+
+
+/-- **several views on one base object** (windows on one file used alternately, the owner of the file moving it in between):
+    a read or write through a window returns the same value, leaves the window at the same position and the base with the
+    same bytes whatever the position of the base was before the call.  Together with the refinement theorems this is why
+    interleaving calls on different views by one thread cannot change what any of them returns -/
+theorem C09_shared_base (buf : Bytes) (p p' off size pos : Nat) :
+    (∀ n : Int, Sub.seen (Sub.read PyFile.ops ⟨⟨buf, p⟩, off, size, pos⟩ n) =
+                Sub.seen (Sub.read PyFile.ops ⟨⟨buf, p'⟩, off, size, pos⟩ n)) ∧
+    (∀ w : Bytes, Sub.seen (Sub.write PyFile.ops ⟨⟨buf, p⟩, off, size, pos⟩ w) =
+                  Sub.seen (Sub.write PyFile.ops ⟨⟨buf, p'⟩, off, size, pos⟩ w)) :=
+  sub_base_position_irrelevant buf p p' off size pos
 
 end Pyctr.C09
